@@ -353,7 +353,11 @@ def replay_callback(a):
     ka, ta = a["ka"], tuple(a["ta"])
 
     def lit(nm, k, t):
-        return (mdl.get(nm + "_lit", 0) or 0) % (1 << t[1]) if k == "Number" else 0
+        # the literal's value: its own model variable when the path constrained it, else the value of its denotation
+        v = mdl.get(nm + "_lit")
+        if v is None:
+            v = mdl.get(nm, 0)
+        return (v or 0) % (1 << t[1]) if k == "Number" else 0
     oa = _real_operand(ka, ta, "a", lit("a", ka, ta))
     vals = {}
     kinds_used = [ka, a.get("kb"), a.get("kc")]
